@@ -108,8 +108,8 @@ pub enum Op {
     // 6.5 (index None = push/pop)
     InsertRow(Option<usize>, usize, Vec<Option<u32>>),
     InsertCol(Option<usize>, usize, Vec<Option<u32>>),
-    RemoveRow(Option<usize>, Vec<Step>, bool),
-    RemoveCol(Option<usize>, Vec<Step>, bool),
+    RemoveRow(Option<usize>, Vec<Step>, DrainEnd),
+    RemoveCol(Option<usize>, Vec<Step>, DrainEnd),
     Clear,
     SwapDimensions,
     Reserve(usize),
@@ -280,10 +280,21 @@ fn drain_word(s: &str) -> Option<Vec<Step>> {
     }
 }
 
-fn drain_end(s: &str) -> Option<bool> {
+/// how a drain's life ends: dropped, forgotten, or consumed by value through `fold` / `rfold`
+#[derive(Clone, Copy, Debug, PartialEq, Eq)]
+pub enum DrainEnd {
+    Drop,
+    Leak,
+    Fold,
+    RFold,
+}
+
+fn drain_end(s: &str) -> Option<DrainEnd> {
     match s {
-        "drop" => Some(false),
-        "leak" => Some(true),
+        "drop" => Some(DrainEnd::Drop),
+        "leak" => Some(DrainEnd::Leak),
+        "fold" => Some(DrainEnd::Fold),
+        "rfold" => Some(DrainEnd::RFold),
         _ => None,
     }
 }
